@@ -23,6 +23,7 @@ type openFile struct {
 	pos    int
 	closed bool
 	append bool
+	isDir  bool // opened read-only on a directory: reads fail
 }
 
 func (fr *frame) fileOf(v value) *openFile {
@@ -46,7 +47,10 @@ func (fr *frame) openFileModel(name string, flag int) value {
 		if flag&(os.O_WRONLY|os.O_RDWR) != 0 {
 			return tuple{(*value)(nil), fr.i.mkError("open " + name + ": is a directory")}
 		}
-		inconclusive("reading a directory through *os.File is not modelled")
+		// a directory can be opened read-only; reading from it fails
+		cell := new(value)
+		*cell = &native{kind: "file", obj: &openFile{path: name, isDir: true}}
+		return tuple{cell, nilError()}
 	}
 	if !env.isDir(parentDir(name)) {
 		return tuple{(*value)(nil), fr.i.mkError("open " + name + ": no such file or directory")}
@@ -135,6 +139,53 @@ func init() {
 		}
 		of.pos += len(b)
 		return tuple{len(b), nilError()}, true
+	}
+	I["(*os.File).Read"] = func(fr *frame, args []value) (value, bool) {
+		of := fr.fileOf(args[0])
+		if of.closed {
+			return tuple{0, fr.i.mkError("read: file already closed")}, true
+		}
+		if of.isDir {
+			return tuple{0, fr.i.mkError("read " + of.path + ": is a directory")}, true
+		}
+		f := fr.i.env.files[of.path]
+		dst := args[1].([]value)
+		if f == nil || of.pos >= len(f.data) {
+			if len(dst) == 0 {
+				return tuple{0, nilError()}, true
+			}
+			return tuple{0, fr.i.ioEOF()}, true
+		}
+		n := 0
+		for n < len(dst) && of.pos+n < len(f.data) {
+			fr.i.undo = append(fr.i.undo, undoRec{addr: &dst[n], old: dst[n]})
+			dst[n] = f.data[of.pos+n]
+			n++
+		}
+		of.pos += n
+		return tuple{n, nilError()}, true
+	}
+	I["(*os.File).Seek"] = func(fr *frame, args []value) (value, bool) {
+		of := fr.fileOf(args[0])
+		off := int(fr.concreteInt(args[1]))
+		whence := int(fr.concreteInt(args[2]))
+		size := 0
+		if f := fr.i.env.files[of.path]; f != nil {
+			size = len(f.data)
+		}
+		switch whence {
+		case 0:
+			of.pos = off
+		case 1:
+			of.pos += off
+		case 2:
+			of.pos = size + off
+		}
+		if of.pos < 0 {
+			of.pos = 0
+			return tuple{int64(0), fr.i.mkError("seek: negative position")}, true
+		}
+		return tuple{int64(of.pos), nilError()}, true
 	}
 	I["(*os.File).WriteString"] = func(fr *frame, args []value) (value, bool) {
 		return I["(*os.File).Write"](fr, []value{args[0], strBytes(args[1])})
@@ -790,6 +841,22 @@ func (in *Interp) forceInit(fr *frame, pkg *ssa.Package) {
 	fi.initAllowed = true
 	defer func() { fi.initAllowed = saved }()
 	in.callSSA(fr, 0, pkg.Func("init"), nil, nil)
+}
+
+// ioEOF is the value of the package variable io.EOF (callers compare
+// errors with it by identity).
+func (in *Interp) ioEOF() value {
+	if pkg := in.prog.ImportedPackage("io"); pkg != nil {
+		if g, ok := pkg.Members["EOF"].(*ssa.Global); ok {
+			if cell := in.globals[g]; cell != nil {
+				if v, ok := (*cell).(iface); ok && v.t != nil {
+					return v
+				}
+			}
+		}
+	}
+	inconclusive("io.EOF not initialised")
+	return nil
 }
 
 func (in *Interp) setOsArgs(ss []string) {
